@@ -180,7 +180,7 @@ def initial_self_state(facts, adt, summaries):
                         for i, o in enumerate(s['rv']['o']):
                             v = it.eval_op(st, o)
                             name = s['rv']['fields'][i]
-                            if v and v[0] in ('c', 'v', 'q'):
+                            if v and v[0] in ('c', 'v', 'q', 'e'):
                                 vals[name] = v
                             elif v and v[0] == 'v':
                                 vals[name] = v
